@@ -29,6 +29,16 @@ def check(unit):
     """-> (list of notes for the evidence, list of mismatch messages)"""
     reg = json.load(open(os.path.join(ROOT, "registry.json")))
     notes, bad = [], []
+    # derived fragment: matrix_min_A must be exactly what tools/mk_matrix_min.py derives from matrix_core_A
+    vs = open(os.path.join(ROOT, "contracts", unit + ".vspec")).read()
+    if "#use contracts/matrix_min_A.vspec" in vs:
+        import importlib.util
+        sp = importlib.util.spec_from_file_location("mk_matrix_min", os.path.join(ROOT, "tools", "mk_matrix_min.py"))
+        mod = importlib.util.module_from_spec(sp); sp.loader.exec_module(mod)
+        if mod.generate() != open(os.path.join(ROOT, "contracts", "matrix_min_A.vspec")).read():
+            bad.append("contracts/matrix_min_A.vspec is not the text derived from matrix_core_A.vspec (run tools/mk_matrix_min.py)")
+        else:
+            notes.append("the Matrix functions are trusted takes whose contracts are copied verbatim from matrix_core_A (proved in unit matrix_A); derivation re-checked on this run")
     for b in reg.get("bridges", []):
         if b["unit"] != unit:
             continue
